@@ -59,6 +59,10 @@ type BucketSet struct {
 	m    map[string]*struct {
 		r       L
 		lastUse time.Time
+		// Number of permits held or waited for. A bucket in use is never
+		// reaped: its holders would release into a bucket that is gone while
+		// new takers get a fresh one.
+		users int
 	}
 }
 
@@ -70,6 +74,7 @@ func NewBucketSet(new_ func() L, reapInterval time.Duration, maxBuckets int) *Bu
 		m: map[string]*struct {
 			r       L
 			lastUse time.Time
+			users   int
 		}{},
 	}
 }
@@ -91,7 +96,7 @@ func (r *BucketSet) take(key string) L {
 		now := time.Now()
 		// Attempt to get rid of stale buckets.
 		for k, v := range r.m {
-			if now.Sub(v.lastUse) > r.ReapInterval {
+			if v.users == 0 && now.Sub(v.lastUse) > r.ReapInterval {
 				// Drop the bucket, if there happen to be any waiting Take for it.
 				// It will return 'false', but this is fine for us since this
 				// whole 'reaping' process will run only when we are under a
@@ -113,6 +118,7 @@ func (r *BucketSet) take(key string) L {
 		r.m[key] = &struct {
 			r       L
 			lastUse time.Time
+			users   int
 		}{
 			r:       r.New(),
 			lastUse: time.Now(),
@@ -120,8 +126,17 @@ func (r *BucketSet) take(key string) L {
 		bucket = r.m[key]
 	}
 	r.m[key].lastUse = time.Now()
+	bucket.users++
 
 	return bucket.r
+}
+
+// unuse undoes the accounting of take for a permit that was not obtained or
+// is returned.
+func (r *BucketSet) unuse(key string) {
+	if bucket, ok := r.m[key]; ok && bucket.users > 0 {
+		bucket.users--
+	}
 }
 
 func (r *BucketSet) Take(key string) bool {
@@ -133,7 +148,13 @@ func (r *BucketSet) Take(key string) bool {
 	if bucket == nil {
 		return false
 	}
-	return bucket.Take()
+	if !bucket.Take() {
+		r.mLck.Lock()
+		r.unuse(key)
+		r.mLck.Unlock()
+		return false
+	}
+	return true
 }
 
 func (r *BucketSet) Release(key string) {
@@ -149,6 +170,7 @@ func (r *BucketSet) Release(key string) {
 		return
 	}
 	bucket.r.Release()
+	r.unuse(key)
 }
 
 func (r *BucketSet) TakeContext(ctx context.Context, key string) error {
@@ -160,5 +182,11 @@ func (r *BucketSet) TakeContext(ctx context.Context, key string) error {
 	if bucket == nil {
 		return ErrTooManyBuckets
 	}
-	return bucket.TakeContext(ctx)
+	if err := bucket.TakeContext(ctx); err != nil {
+		r.mLck.Lock()
+		r.unuse(key)
+		r.mLck.Unlock()
+		return err
+	}
+	return nil
 }
